@@ -475,3 +475,12 @@
         }
         assert(v1 =~= v2);
     }
+    pub proof fn lemma_hint_count_mono(h: Seq<R>, a: int, b: int)
+        requires 0 <= a <= b,
+        ensures hint_count(h, a) <= hint_count(h, b),
+        decreases b - a
+    {
+        if a < b { lemma_hint_count_mono(h, a, b - 1); }
+    }
+    // trigger helper: position t lies in the index segment of polynomial p
+    pub open spec fn hint_seg(h: Seq<R>, p: int, t: int) -> bool { hint_count(h, 256 * p) <= t < hint_count(h, 256 * (p + 1)) }
